@@ -206,18 +206,36 @@ theorem runS_printPairs (l : Option (Sel × Bool)) (x : Sel) (b : Bool) (stk : L
 
 /-! ### the chain -/
 
-/-- the "may take a group" flag after a search has been read is `lastBare` -/
-theorem feed_flag : ∀ (s : Sel) (left : Option (Sel × Bool)), (feed s left).2.2 = lastBare s
-  | .rule _, _ => rfl
-  | .attr b a, left => by simp only [feed, lastBare]; exact feed_flag a _
-  | .desc b a, left => by simp only [feed, lastBare]; exact feed_flag a _
-  | .item _ _, _ => rfl
-  | .sel _ _, _ => rfl
+/-- the base of a group, printed by `format_as_base`, read from a state that expects a selection:
+    the selection in progress is the base's reading, and it may take the group -/
+theorem runS_printBase (b : Sel) (left : Option (Sel × Bool)) (stk : List SFrame)
+    (ih : ∀ (l : Option (Sel × Bool)) (k : List SFrame),
+      runS (⟨l, none, .chain⟩, k) (printSel true b) = some (⟨(feed b l).1, some (feed b l).2, .chain⟩, k)) :
+    runS (⟨left, none, .chain⟩, stk) (printBase true b (printSel true b))
+      = some (⟨left, some (normSel b, true), .chain⟩, stk) := by
+  have paren : runS (⟨left, none, .chain⟩, stk) (.lp :: (printSel true b ++ [.rp]))
+      = some (⟨left, some (normSel b, true), .chain⟩, stk) := by
+    have h1 : stepS (⟨left, none, .chain⟩, stk) .lp = some (SFrame.empty, ⟨left, none, .chain⟩ :: stk) := by
+      simp [stepS]
+    rw [runS_cons h1]
+    have h2 := ih none (⟨left, none, .chain⟩ :: stk)
+    simp only [SFrame.empty]
+    rw [runS_append_of h2]
+    have h3 : stepS (⟨(feed b none).1, some (feed b none).2, .chain⟩, ⟨left, none, .chain⟩ :: stk) .rp
+        = some (⟨left, some (comb (feed b none).1 (feed b none).2.1, true), .chain⟩, stk) := by
+      simp [stepS]
+    rw [runS_cons h3]; rfl
+  cases b with
+  | rule n => simp [printBase, printSel, runS, stepS, normSel, feed, comb]
+  | attr x y => simpa [printBase] using paren
+  | desc x y => simpa [printBase] using paren
+  | item x y => simpa [printBase] using paren
+  | sel x y => simpa [printBase] using paren
 
 /-- **the reader over a printed search** -/
 theorem runS_printSel : ∀ (s : Sel), wfSel s = true → ∀ (left : Option (Sel × Bool))
     (stk : List SFrame),
-    runS (⟨left, none, .chain⟩, stk) (printSel s)
+    runS (⟨left, none, .chain⟩, stk) (printSel true s)
       = some (⟨(feed s left).1, some (feed s left).2, .chain⟩, stk)
   | .rule n, _, left, stk => by simp [printSel, runS, stepS, feed]
   | .attr b a, h, left, stk => by
@@ -240,66 +258,76 @@ theorem runS_printSel : ∀ (s : Sel), wfSel s = true → ∀ (left : Option (Se
     exact runS_printSel a h.2 _ stk
   | .item b sl, h, left, stk => by
     simp only [wfSel, Bool.and_eq_true, Bool.not_eq_true', List.isEmpty_eq_false_iff] at h
-    obtain ⟨⟨hb, hl⟩, hne⟩ := h
+    obtain ⟨hb, hne⟩ := h
     simp only [printSel, feed]
-    rw [runS_append_of (runS_printSel b hb left stk)]
-    have hf := feed_flag b left
-    rw [hl] at hf
-    have e : (feed b left).2 = ((feed b left).2.1, true) := by rw [← hf]
-    have : stepS (⟨(feed b left).1, some (feed b left).2, .chain⟩, stk) .lbr
-        = some (⟨(feed b left).1, some ((feed b left).2.1, true), .slices [] SliceAcc.fresh⟩, stk) := by
-      rw [e]; simp [stepS]
+    rw [runS_append_of (runS_printBase b left stk (fun l k => runS_printSel b hb l k))]
+    have : stepS (⟨left, some (normSel b, true), .chain⟩, stk) .lbr
+        = some (⟨left, some (normSel b, true), .slices [] SliceAcc.fresh⟩, stk) := by
+      simp [stepS]
     rw [runS_cons this]
     cases sl with
     | nil => exact absurd rfl hne
     | cons s ss =>
-      rw [runS_printSlices (feed b left).1 (feed b left).2.1 true stk ss s []]
+      rw [runS_printSlices left (normSel b) true stk ss s []]
       rfl
   | .sel b ps, h, left, stk => by
     simp only [wfSel, Bool.and_eq_true, Bool.not_eq_true', List.isEmpty_eq_false_iff] at h
-    obtain ⟨⟨⟨hb, hl⟩, hne⟩, hok⟩ := h
+    obtain ⟨⟨hb, hne⟩, hok⟩ := h
     simp only [printSel, feed]
-    rw [runS_append_of (runS_printSel b hb left stk)]
-    have hf := feed_flag b left
-    rw [hl] at hf
-    have e : (feed b left).2 = ((feed b left).2.1, true) := by rw [← hf]
-    have : stepS (⟨(feed b left).1, some (feed b left).2, .chain⟩, stk) .lbrace
-        = some (⟨(feed b left).1, some ((feed b left).2.1, true), .pairs [] .star⟩, stk) := by
-      rw [e]; simp [stepS]
+    rw [runS_append_of (runS_printBase b left stk (fun l k => runS_printSel b hb l k))]
+    have : stepS (⟨left, some (normSel b, true), .chain⟩, stk) .lbrace
+        = some (⟨left, some (normSel b, true), .pairs [] .star⟩, stk) := by
+      simp [stepS]
     rw [runS_cons this]
     cases ps with
     | nil => exact absurd rfl hne
     | cons p ps =>
-      rw [runS_printPairs (feed b left).1 (feed b left).2.1 true stk ps p [] hok]
+      rw [runS_printPairs left (normSel b) true stk ps p [] hok]
       rfl
 
-/-- **reading the printed search back** yields its paren-free reading -/
-theorem readSel_printSel (s : Sel) (h : wfSel s = true) : readSel (printSel s) = some (normSel s) := by
+/-- **reading the printed search back** yields its normal form -/
+theorem readSel_printSel (s : Sel) (h : wfSel s = true) :
+    readSel (printSel true s) = some (normSel s) := by
   simp only [readSel, SFrame.empty, runS_printSel s h none [], normSel]
 
-theorem printSel_head : ∀ s : Sel, ∃ n rest, printSel s = .nt n :: rest
-  | .rule n => ⟨n, [], rfl⟩
-  | .attr b a => by
-    obtain ⟨n, r, e⟩ := printSel_head b
-    exact ⟨n, r ++ .dot :: printSel a, by simp [printSel, e]⟩
-  | .desc b a => by
-    obtain ⟨n, r, e⟩ := printSel_head b
-    exact ⟨n, r ++ .dotdot :: printSel a, by simp [printSel, e]⟩
-  | .item b sl => by
-    obtain ⟨n, r, e⟩ := printSel_head b
-    exact ⟨n, r ++ .lbr :: (printSlices sl ++ [.rbr]), by simp [printSel, e]⟩
-  | .sel b ps => by
-    obtain ⟨n, r, e⟩ := printSel_head b
-    exact ⟨n, r ++ .lbrace :: (printPairs ps ++ [.rbrace]), by simp [printSel, e]⟩
+/-- a printed search starts with a non-terminal or an opening parenthesis -/
+def startsSel : List STok → Bool
+  | .nt _ :: _ => true
+  | .lp :: _ => true
+  | _ => false
 
-theorem readTop_printTop (t : Top) (h : wfTop t = true) : readTop (printTop t) = some (normTop t) := by
+theorem startsSel_append (a b : List STok) (h : startsSel a = true) : startsSel (a ++ b) = true := by
+  match a, h with
+  | .nt _ :: _, _ => rfl
+  | .lp :: _, _ => rfl
+
+theorem printBase_starts (pb : Bool) (b : Sel) (inner : List STok) (h : startsSel inner = true) :
+    startsSel (printBase pb b inner) = true := by
+  cases b <;> cases pb <;> first | exact h | rfl
+
+theorem printSel_starts (pb : Bool) : ∀ s : Sel, startsSel (printSel pb s) = true
+  | .rule n => rfl
+  | .attr b a => by simp only [printSel]; exact startsSel_append _ _ (printSel_starts pb b)
+  | .desc b a => by simp only [printSel]; exact startsSel_append _ _ (printSel_starts pb b)
+  | .item b sl => by
+    simp only [printSel]
+    exact startsSel_append _ _ (printBase_starts pb b _ (printSel_starts pb b))
+  | .sel b ps => by
+    simp only [printSel]
+    exact startsSel_append _ _ (printBase_starts pb b _ (printSel_starts pb b))
+
+/-- a token list that starts like a search is read by the `dot_selection` branch of `readTop` -/
+theorem readTop_plain (ts : List STok) (h : startsSel ts = true) : readTop ts = (readSel ts).map .plain := by
+  match ts, h with
+  | .nt _ :: _, _ => rfl
+  | .lp :: _, _ => rfl
+
+theorem readTop_printTop (t : Top) (h : wfTop t = true) :
+    readTop (printTop true t) = some (normTop t) := by
   cases t with
   | plain s =>
-    obtain ⟨n, r, e⟩ := printSel_head s
-    have hr := readSel_printSel s h
     simp only [printTop]
-    rw [e] at hr ⊢
-    simp [readTop, hr, normTop]
+    rw [readTop_plain _ (printSel_starts true s), readSel_printSel s h]; rfl
   | star s =>
     simp [printTop, readTop, readSel_printSel s h, normTop]
   | lenBar s =>
@@ -310,117 +338,155 @@ theorem readTop_printTop (t : Top) (h : wfTop t = true) : readTop (printTop t) =
 /-! ### the normal form -/
 
 /-- a selection read behind `left` leaves `left` alone -/
-theorem feed_selection : ∀ (a : Sel), isSelection a = true → ∀ left, feed a left = (left, (a, lastBare a))
+theorem feed_selection_left : ∀ (a : Sel) (left : Option (Sel × Bool)), isSelection a = true →
+    (feed a left).1 = left
   | .rule _, _, _ => rfl
-  | .item (.rule _) _, _, _ => rfl
-  | .sel (.rule _) _, _, _ => rfl
-  | .item (.attr _ _) _, h, _ => by simp [isSelection] at h
-  | .item (.desc _ _) _, h, _ => by simp [isSelection] at h
-  | .item (.item _ _) _, h, _ => by simp [isSelection] at h
-  | .item (.sel _ _) _, h, _ => by simp [isSelection] at h
-  | .sel (.attr _ _) _, h, _ => by simp [isSelection] at h
-  | .sel (.desc _ _) _, h, _ => by simp [isSelection] at h
-  | .sel (.item _ _) _, h, _ => by simp [isSelection] at h
-  | .sel (.sel _ _) _, h, _ => by simp [isSelection] at h
-  | .attr _ _, h, _ => by simp [isSelection] at h
-  | .desc _ _, h, _ => by simp [isSelection] at h
+  | .item _ _, _, _ => rfl
+  | .sel _ _, _, _ => rfl
+  | .attr _ _, _, h => by simp [isSelection] at h
+  | .desc _ _, _, h => by simp [isSelection] at h
 
-/-- a search of the shape the front end builds from a paren-free text is its own normal form -/
-theorem normSel_flat : ∀ s : Sel, flat s = true → normSel s = s
+mutual
+/-- a search in normal form is its own reading -/
+theorem normSel_isNorm : ∀ s : Sel, isNorm s = true → normSel s = s
   | .rule _, _ => rfl
   | .item b sl, h => by
-    have hs : isSelection (.item b sl) = true := by simpa [flat] using h
-    simp [normSel, feed_selection _ hs, comb]
+    have ih := normSel_isNorm b (by simpa [isNorm] using h)
+    simp only [normSel] at ih
+    simp only [normSel, feed, ih]; rfl
   | .sel b ps, h => by
-    have hs : isSelection (.sel b ps) = true := by simpa [flat] using h
-    simp [normSel, feed_selection _ hs, comb]
+    have ih := normSel_isNorm b (by simpa [isNorm] using h)
+    simp only [normSel] at ih
+    simp only [normSel, feed, ih]; rfl
   | .attr b a, h => by
-    simp only [flat, Bool.and_eq_true] at h
-    have ih := normSel_flat b h.1
+    simp only [isNorm, Bool.and_eq_true] at h
+    have ih := normSel_isNorm b h.1
     simp only [normSel] at ih
-    have e : feed (.attr b a) none
-        = (some (comb (feed b none).1 (feed b none).2.1, false), (a, lastBare a)) := by
-      simp only [feed, feed_selection a h.2]
-    simp only [normSel, e, ih]; rfl
+    have ha := feed_selection_cur a (some (b, false)) h.2
+    have hl := feed_selection_left a (some (b, false)) h.2
+    simp only [normSel, feed, ih]
+    rw [hl, ha]; rfl
   | .desc b a, h => by
-    simp only [flat, Bool.and_eq_true] at h
-    have ih := normSel_flat b h.1
+    simp only [isNorm, Bool.and_eq_true] at h
+    have ih := normSel_isNorm b h.1
     simp only [normSel] at ih
-    have e : feed (.desc b a) none
-        = (some (comb (feed b none).1 (feed b none).2.1, true), (a, lastBare a)) := by
-      simp only [feed, feed_selection a h.2]
-    simp only [normSel, e, ih]; rfl
+    have ha := feed_selection_cur a (some (b, true)) h.2
+    have hl := feed_selection_left a (some (b, true)) h.2
+    simp only [normSel, feed, ih]
+    rw [hl, ha]; rfl
+/-- a selection in normal form is read as itself -/
+theorem feed_selection_cur : ∀ (a : Sel) (left : Option (Sel × Bool)), isSelection a = true →
+    (feed a left).2.1 = a
+  | .rule _, _, _ => rfl
+  | .item b sl, _, h => by
+    have ih := normSel_isNorm b (by simpa [isSelection] using h)
+    simp only [normSel] at ih
+    simp [feed, ih]
+  | .sel b ps, _, h => by
+    have ih := normSel_isNorm b (by simpa [isSelection] using h)
+    simp only [normSel] at ih
+    simp [feed, ih]
+  | .attr _ _, _, h => by simp [isSelection] at h
+  | .desc _ _, _, h => by simp [isSelection] at h
+end
 
-/-- the left part is absent or flat -/
-def leftFlat : Option (Sel × Bool) → Bool
+/-- the left part is absent or in normal form -/
+def leftNorm : Option (Sel × Bool) → Bool
   | none => true
-  | some (l, _) => flat l
+  | some (l, _) => isNorm l
 
-theorem flat_comb (left : Option (Sel × Bool)) (s : Sel) (hl : leftFlat left = true)
-    (hs : isSelection s = true) : flat (comb left s) = true := by
+theorem isNorm_of_isSelection : ∀ s : Sel, isSelection s = true → isNorm s = true
+  | .rule _, _ => rfl
+  | .item _ _, h => by simpa [isSelection, isNorm] using h
+  | .sel _ _, h => by simpa [isSelection, isNorm] using h
+  | .attr _ _, h => by simp [isSelection] at h
+  | .desc _ _, h => by simp [isSelection] at h
+
+theorem isNorm_comb (left : Option (Sel × Bool)) (s : Sel) (hl : leftNorm left = true)
+    (hs : isSelection s = true) : isNorm (comb left s) = true := by
   match left with
-  | none =>
-    cases s with
-    | attr _ _ => simp [isSelection] at hs
-    | desc _ _ => simp [isSelection] at hs
-    | rule _ => simpa [comb, flat] using hs
-    | item _ _ => simpa [comb, flat] using hs
-    | sel _ _ => simpa [comb, flat] using hs
-  | some (l, false) => simp only [leftFlat] at hl; simp [comb, flat, hl, hs]
-  | some (l, true) => simp only [leftFlat] at hl; simp [comb, flat, hl, hs]
+  | none => exact isNorm_of_isSelection s hs
+  | some (l, false) => simp only [leftNorm] at hl; simp [comb, isNorm, hl, hs]
+  | some (l, true) => simp only [leftNorm] at hl; simp [comb, isNorm, hl, hs]
 
-/-- what has been read is flat: the left part, and the selection in progress is a selection — a bare
-    non-terminal while it may still take a group -/
-theorem feed_flat : ∀ (s : Sel), wfSel s = true → ∀ left, leftFlat left = true →
-    leftFlat (feed s left).1 = true ∧ isSelection (feed s left).2.1 = true ∧
-    ((feed s left).2.2 = true → ∃ n, (feed s left).2.1 = .rule n)
-  | .rule n, _, left, hl => ⟨hl, rfl, fun _ => ⟨n, rfl⟩⟩
-  | .attr b a, h, left, hl => by
-    simp only [wfSel, Bool.and_eq_true] at h
-    obtain ⟨h1, h2, _⟩ := feed_flat b h.1 left hl
+/-- what has been read is in normal form: the left part, and the selection in progress is a selection -/
+theorem feed_norm : ∀ (s : Sel) (left : Option (Sel × Bool)), leftNorm left = true →
+    leftNorm (feed s left).1 = true ∧ isSelection (feed s left).2.1 = true
+  | .rule n, left, hl => ⟨hl, rfl⟩
+  | .attr b a, left, hl => by
+    obtain ⟨h1, h2⟩ := feed_norm b left hl
     simp only [feed]
-    exact feed_flat a h.2 _ (by simpa [leftFlat] using flat_comb _ _ h1 h2)
-  | .desc b a, h, left, hl => by
-    simp only [wfSel, Bool.and_eq_true] at h
-    obtain ⟨h1, h2, _⟩ := feed_flat b h.1 left hl
+    exact feed_norm a _ (by simpa [leftNorm] using isNorm_comb _ _ h1 h2)
+  | .desc b a, left, hl => by
+    obtain ⟨h1, h2⟩ := feed_norm b left hl
     simp only [feed]
-    exact feed_flat a h.2 _ (by simpa [leftFlat] using flat_comb _ _ h1 h2)
-  | .item b sl, h, left, hl => by
-    simp only [wfSel, Bool.and_eq_true] at h
-    obtain ⟨h1, _, h3⟩ := feed_flat b h.1.1 left hl
-    obtain ⟨n, e⟩ := h3 (by rw [feed_flag]; exact h.1.2)
+    exact feed_norm a _ (by simpa [leftNorm] using isNorm_comb _ _ h1 h2)
+  | .item b sl, left, hl => by
+    obtain ⟨h1, h2⟩ := feed_norm b none rfl
     simp only [feed]
-    exact ⟨h1, by rw [e]; rfl, fun hf => by simp at hf⟩
-  | .sel b ps, h, left, hl => by
-    simp only [wfSel, Bool.and_eq_true] at h
-    obtain ⟨h1, _, h3⟩ := feed_flat b h.1.1.1 left hl
-    obtain ⟨n, e⟩ := h3 (by rw [feed_flag]; exact h.1.1.2)
+    exact ⟨hl, by simpa [isSelection] using isNorm_comb _ _ h1 h2⟩
+  | .sel b ps, left, hl => by
+    obtain ⟨h1, h2⟩ := feed_norm b none rfl
     simp only [feed]
-    exact ⟨h1, by rw [e]; rfl, fun hf => by simp at hf⟩
+    exact ⟨hl, by simpa [isSelection] using isNorm_comb _ _ h1 h2⟩
 
-/-- the normal form is of the shape the front end builds -/
-theorem flat_normSel (s : Sel) (h : wfSel s = true) : flat (normSel s) = true := by
-  obtain ⟨h1, h2, _⟩ := feed_flat s h none rfl
-  exact flat_comb _ _ h1 h2
+/-- the reading of a printed search is in normal form -/
+theorem isNorm_normSel (s : Sel) : isNorm (normSel s) = true := by
+  obtain ⟨h1, h2⟩ := feed_norm s none rfl
+  exact isNorm_comb _ _ h1 h2
 
-/-- printing forgets the parentheses only: the normal form prints as the same tokens -/
+/-- printing forgets redundant parentheses only: the normal form prints as the same tokens -/
 def printLeft : Option (Sel × Bool) → List STok
   | none => []
-  | some (l, false) => printSel l ++ [.dot]
-  | some (l, true) => printSel l ++ [.dotdot]
+  | some (l, false) => printSel true l ++ [.dot]
+  | some (l, true) => printSel true l ++ [.dotdot]
 
-theorem printLeft_dot (l : Sel) : printLeft (some (l, false)) = printSel l ++ [.dot] := rfl
-theorem printLeft_dotdot (l : Sel) : printLeft (some (l, true)) = printSel l ++ [.dotdot] := rfl
+theorem printLeft_dot (l : Sel) : printLeft (some (l, false)) = printSel true l ++ [.dot] := rfl
+theorem printLeft_dotdot (l : Sel) : printLeft (some (l, true)) = printSel true l ++ [.dotdot] := rfl
 
 theorem printSel_comb (left : Option (Sel × Bool)) (s : Sel) :
-    printSel (comb left s) = printLeft left ++ printSel s := by
+    printSel true (comb left s) = printLeft left ++ printSel true s := by
   match left with
   | none => rfl
   | some (l, false) => simp [comb, printSel, printLeft]
   | some (l, true) => simp [comb, printSel, printLeft]
 
+def isRule : Sel → Bool
+  | .rule _ => true
+  | _ => false
+
+theorem printBase_eq (pb : Bool) (b : Sel) (inner : List STok) :
+    printBase pb b inner = if isRule b then inner else if pb then .lp :: (inner ++ [.rp]) else inner := by
+  cases b <;> simp [printBase, isRule]
+
+/-- behind a left part there is still a left part -/
+theorem feed_left_isSome : ∀ (s : Sel) (l : Sel × Bool), ((feed s (some l)).1).isSome = true
+  | .rule _, _ => rfl
+  | .attr b a, l => by simp only [feed]; exact feed_left_isSome a _
+  | .desc b a, l => by simp only [feed]; exact feed_left_isSome a _
+  | .item _ _, _ => rfl
+  | .sel _ _, _ => rfl
+
+theorem isRule_comb_of_isSome (left : Option (Sel × Bool)) (s : Sel) (h : left.isSome = true) :
+    isRule (comb left s) = false := by
+  match left, h with
+  | some (l, false), _ => rfl
+  | some (l, true), _ => rfl
+
+/-- the reading of a search is a plain non-terminal exactly when the search is -/
+theorem isRule_normSel : ∀ b : Sel, isRule (normSel b) = isRule b
+  | .rule _ => rfl
+  | .attr x y => by
+    simp only [normSel, feed, isRule]
+    exact isRule_comb_of_isSome _ _ (feed_left_isSome y _)
+  | .desc x y => by
+    simp only [normSel, feed, isRule]
+    exact isRule_comb_of_isSome _ _ (feed_left_isSome y _)
+  | .item _ _ => rfl
+  | .sel _ _ => rfl
+
 theorem printSel_feed : ∀ (s : Sel) (left : Option (Sel × Bool)),
-    printLeft (feed s left).1 ++ printSel (feed s left).2.1 = printLeft left ++ printSel s
+    printLeft (feed s left).1 ++ printSel true (feed s left).2.1 = printLeft left ++ printSel true s
   | .rule _, _ => rfl
   | .attr b a, left => by
     simp only [feed]
@@ -433,13 +499,19 @@ theorem printSel_feed : ∀ (s : Sel) (left : Option (Sel × Bool)),
     simp only [printLeft_dotdot, printSel, printSel_comb]
     rw [printSel_feed b left]; simp
   | .item b sl, left => by
-    simp only [feed, printSel]
-    rw [← List.append_assoc, printSel_feed b left]; simp
+    have ih := printSel_feed b none
+    have hb : printSel true (comb (feed b none).1 (feed b none).2.1) = printSel true b := by
+      rw [printSel_comb]; simpa [printLeft] using ih
+    have hr : isRule (comb (feed b none).1 (feed b none).2.1) = isRule b := isRule_normSel b
+    simp only [feed, printSel, printBase_eq, hb, hr]
   | .sel b ps, left => by
-    simp only [feed, printSel]
-    rw [← List.append_assoc, printSel_feed b left]; simp
+    have ih := printSel_feed b none
+    have hb : printSel true (comb (feed b none).1 (feed b none).2.1) = printSel true b := by
+      rw [printSel_comb]; simpa [printLeft] using ih
+    have hr : isRule (comb (feed b none).1 (feed b none).2.1) = isRule b := isRule_normSel b
+    simp only [feed, printSel, printBase_eq, hb, hr]
 
-theorem printSel_normSel (s : Sel) : printSel (normSel s) = printSel s := by
+theorem printSel_normSel (s : Sel) : printSel true (normSel s) = printSel true s := by
   have := printSel_feed s none
   simp only [normSel]
   rw [printSel_comb]
